@@ -427,6 +427,15 @@ fn check_names(t: &mut Tally, scratch: &Path, id: usize, names: &[String]) {
             Err(e) => fault("package directory", e),
         }
     });
+    // a file system that folds case or normalises names keeps one directory for two spellings:
+    // only the names that the harness itself reads back byte for byte are cases
+    match std::fs::read_dir(&root) {
+        Ok(rd) => {
+            let listed: std::collections::HashSet<std::ffi::OsString> = rd.filter_map(|e| e.ok()).map(|e| e.file_name()).collect();
+            names.retain(|n| listed.contains(std::ffi::OsStr::new(n)));
+        }
+        Err(e) => fault("listing the scratch database", e),
+    }
     if names.is_empty() {
         let _ = std::fs::remove_dir_all(&root);
         t.outcome("names/not-creatable");
